@@ -162,7 +162,12 @@ class Engine(ExecMixin, CallMixin, EvalMixin):
     def elemref(self, et):
         key = self.skey(et)
         if key not in self.elemref_fns:
-            self.elemref_fns[key] = z3.Function('elemref!' + key, I, I, I)
+            f = z3.Function('elemref!' + key, I, I, I)
+            self.elemref_fns[key] = f
+            # distinct (array, index) pairs address distinct elements: inverse functions
+            ia = z3.Function('elemarr!' + key, I, I); ii = z3.Function('elemidx!' + key, I, I)
+            a, i = z3.Ints('er!a er!i')
+            self.global_axioms.append(z3.ForAll([a, i], And(ia(f(a, i)) == a, ii(f(a, i)) == i), patterns=[f(a, i)]))
         return self.elemref_fns[key]
 
     # ------------------------------------------------------------------ typed heap access
